@@ -21,6 +21,7 @@ RULE = (
     "every in-range (start,nsamps), every row of dmt_transform (full and valid, 1..5 steps), pulse restoration and DM,-DM identity; "
     "compared exactly with x[c,t+d_c] on labelled data. Non-trivial = any case with a non-zero delay"
 )
+SCALE_LANE = 'blocks of 10 007 samples through every entry point (3 band/DM pairs quick, 6 thorough; stream gulps 4096, 4099, N); antisymmetry and the dispersion law on 1200 (6000) DMs x 3 wide bands of 64-256 channels'
 ASSUMPTIONS = [
     "part 2 uses the library's own delay table (part 1 checks it against the physical law)",
     "for delay tables with negative entries the valid-sample outputs are defined for t >= t0 = -min(d,0); out[t'] = x[c, t'+t0+d_c] is accepted (time origin advanced by t0)",
